@@ -237,6 +237,14 @@ def run(t):
                             "ValueError", repr(ex)[:100], {"kind": "C13", "where": "check_ast", "value": key})
                 continue
             want = any(v is b for b in BAD)
+            # the spec function of the deductive proof of check_ast, run natively
+            import legal as spec_legal
+            t.contract("check_ast: refuses iff not all_legal(tree)  (spec, native)")
+            if refused != (not spec_legal.all_legal(tree)):
+                t.violation("check_ast:raises ValueError iff not all_legal(a)",
+                            f"the spec all_legal says {spec_legal.all_legal(tree)} in context `{ctx}`",
+                            key, None, "refused" if refused else "accepted",
+                            {"kind": "C13", "where": "check_ast", "value": key})
             if refused != want:
                 t.violation("check_ast:returns iff every Constant has a transportable type",
                             ("non-transportable constant accepted" if want else
